@@ -510,6 +510,8 @@ func (x *SExec) apply(i int, op SOp) *Fail {
 		return x.doSnapRace(i, op)
 	case "iorace":
 		return x.doIORace(i, op)
+	case "addresize":
+		return x.doAddResize(i, op)
 	case "ctldelsnap":
 		return x.doCtlDeleteSnapshot(i, op)
 	case "ctlrevert":
@@ -2251,6 +2253,67 @@ func (x *SExec) doIORace(i int, op SOp) *Fail {
 	case "unmap":
 		if len(reached) > 0 {
 			x.Live.Unmap(off2*Sec, len2*Sec)
+		}
+	}
+	return nil
+}
+
+// doAddResize: the volume is grown while an add request is in flight (admitted,
+// connecting to its replica, controller lock released). Whichever takes effect
+// first, the replica that joins ends up with the volume's size.
+// op.Node = the joining replica, op.N = blocks to add.
+func (x *SExec) doAddResize(i int, op SOp) *Fail {
+	st := x.St
+	n := op.Node % len(st.Nodes)
+	if x.woNode() >= 0 || x.listed() >= x.P.RF || x.listed() == 0 || x.Mode[n] != "" || st.Nodes[n].S.Replica() != nil {
+		return nil
+	}
+	for j, m := range x.Mode {
+		if m == types.ERR || (m == "" && st.Mode(j) != "") {
+			return nil
+		}
+	}
+	gate := make(chan struct{})
+	st.Fac.setGate(gate)
+	base := st.Fac.nCreates()
+	res := make(chan error, 1)
+	go func() { res <- st.C.AddReplica(st.Nodes[n].Addr) }()
+	for t0 := time.Now(); st.Fac.nCreates() < base+1 && len(res) == 0 && time.Since(t0) < 2*time.Second; {
+		time.Sleep(time.Millisecond)
+	}
+	inFlight := st.Fac.nCreates() > base
+	newBlocks := x.Live.size()/Blk + op.N
+	rf := x.doCtlResize(i, SOp{K: "ctlresize", N: newBlocks})
+	close(gate)
+	st.Fac.setGate(nil)
+	var err error
+	select {
+	case err = <-res:
+	case <-time.After(60 * time.Second):
+		return sfail("addresize|hangs", "AddReplica did not return within 60 s", "C18", "C14")
+	}
+	x.tracef("addresize n%d (+%d blocks, add in flight=%v) -> add: %v", n, op.N, inFlight, err)
+	if rf != nil {
+		return rf
+	}
+	if inFlight {
+		x.Labels["addresize:grow-while-add-in-flight"]++
+	}
+	if m := st.Mode(n); m == types.WO && x.Mode[n] == "" {
+		x.Mode[n] = types.WO
+		x.AttAck[n] = len(x.Acked)
+		x.AttLog[n] = len(st.Nodes[n].LogCopy())
+		delete(x.subBlockWO, n)
+		delete(x.Frozen, n)
+		x.Labels["add:ok"]++
+		want := x.Live.size()
+		r := st.Nodes[n].S.Replica()
+		if r == nil || r.Info().Size != want {
+			got := int64(-1)
+			if r != nil {
+				got = r.Info().Size
+			}
+			return sfail("ctlresize|joining-replica-size", fmt.Sprintf("the volume was grown to %d while n%d was being added; n%d is attached with size %d", want, n, n, got), "C16")
 		}
 	}
 	return nil
